@@ -100,6 +100,21 @@ Theorem after_a_project_file_only_project_files_are_read :
 Proof. exact home_then_project_spec. Qed.
 Print Assumptions after_a_project_file_only_project_files_are_read.
 
+(* ... and what that order means for the loaded values: an option has the value of the last file of the current directory
+   that assigns it; only when none does, that of the last such file of the home directory; else the built-in default *)
+Theorem files_of_the_current_directory_win_over_files_of_the_home_directory :
+  forall home files defs, load_configuration home files = inl defs ->
+  exists hdatas pdatas,
+    Forall2 (fun df d => read_file (fst df) (snd df) = inl d) (present_home home files) hdatas /\
+    Forall2 (fun df d => read_file (fst df) (snd df) = inl d) (present_project home files) pdatas /\
+    forall k, ns_get k defs =
+      match last_file_value k pdatas with
+      | Some v => Some v
+      | None => match last_file_value k hdatas with Some v => Some v | None => ns_get k class_defaults end
+      end.
+Proof. exact project_files_win_over_home_files. Qed.
+Print Assumptions files_of_the_current_directory_win_over_files_of_the_home_directory.
+
 (* ---- list-valued options ---- *)
 Theorem append_options_keep_file_order_then_command_line_order :
   forall c n d, configure c = inl n -> applike d = true -> mem_str d post_written = false ->
